@@ -86,6 +86,7 @@ func runPipe(c *hx.Ctx, wire []byte, cfg pipeCfg, logLevel slog.Level, display b
 					return
 				}
 				s.Logf("consumer: type %d len %d", m.MessageType, len(m.RawData))
+				rt.Progress()
 				pr.msgs = append(pr.msgs, m)
 				if display {
 					txt := m.String()
